@@ -278,7 +278,9 @@ func c07R4(p *core.Prog, r *core.Report) {
 		return
 	}
 	ex := core.NewExplorer(p, core.Hooks{
-		Track: func(x *core.X, a core.Atom) bool { return strings.Contains(a.L, "AofFlag & ") || strings.HasPrefix(a.L, "WriteLock(") },
+		Track: func(x *core.X, a core.Atom) bool {
+			return strings.Contains(a.L, "AofFlag & ") || strings.HasPrefix(a.L, "WriteLock(")
+		},
 		Instr: func(x *core.X) {
 			if !x.Top() {
 				return
